@@ -109,7 +109,7 @@ def _pool():
 
 def gen_cases(rng, tier):
     cases = []
-    n = 1500 if tier == "quick" else 20000
+    n = 3000 if tier == "quick" else 20000
     for i in range(n):
         nf = rng.choice([1, 1, 2, 3, 4, 5])
         quoted = rng.random() < 0.5
